@@ -20,7 +20,9 @@ def C(ids, voters, learners, **kw):
 
 # name -> (base cfg, overrides, cluster, properties it is expected to break)
 ABLATIONS = {
- "CandidateIgnoresPreVoteResp": ("MC_prevote", {"MaxDrops": 0}, C([1,2,3],[1,2,3],[],pre_vote=True,check_quorum=True), ["C02", "C01", "C05"]),
+ "CandidateIgnoresPreVoteResp": ("MC_prevote", {"MaxDrops": 0, "QuiescentTicks": "FALSE", "CheckQuorumOn": "FALSE"}, C([1,2,3],[1,2,3],[],pre_vote=True), ["C02", "C01", "C05"], ["C02.OneLeaderPerTerm"]),
+ "TransferRespectsCastVote@C02": ("MC_transfer", {"TickNodes": "{1, 3}", "MaxTerm": 2, "MaxDrops": 0, "TransferTargets": "{2}", "QuiescentTicks": "FALSE"}, C([1,2,3],[1,2,3],[]), ["C02"], ["C02.OneLeaderPerTerm"]),
+ "MustSyncOnVoteChange@change": ("MC_change", {"MaxTerm": 2, "MaxProposals": 1, "MaxDrops": 2, "MaxLog": 3, "TickNodes": "{1, 2, 3}", "QuiescentTicks": "FALSE"}, C([1,2,3],[1,2,3],[]), ["C07"], ["C07.MustSync"]),
  "PreVoteGrantNeverBumpsTerm": ("MC_prevote", {"MaxDrops": 1}, C([1,2,3],[1,2,3],[],pre_vote=True,check_quorum=True), ["C16"]),
  "MustSyncOnVoteChange": ("MC_elect", {}, C([1,2,3],[1,2,3],[]), ["C07"]),
  "HeartbeatCommitCap": ("MC_repl", {"MaxDrops": 1, "MaxLeaderTicks": 1}, C([1,2,3],[1,2,3],[]), ["C13", "C04", "C20"]),
@@ -53,9 +55,14 @@ def spec_hash():
     return h.hexdigest()[:16]
 
 def run_one(name, workers=4, timeout=900):
-    base, over, cluster, props = ABLATIONS[name]
+    ent = ABLATIONS[name]
+    base, over, cluster, props = ent[:4]
+    target = ent[4] if len(ent) > 4 else None
+    ablname = name.split("@")[0]
     cfg = open(os.path.join(SPEC, "MC", base + ".cfg")).read()
-    cfg = re.sub(r"Ablate = \{\}", 'Ablate = {"%s"}' % name, cfg)
+    cfg = re.sub(r"Ablate = \{\}", 'Ablate = {"%s"}' % ablname, cfg)
+    if target:
+        cfg = cfg.replace("TargetPreds = {}", "TargetPreds = {%s}" % ", ".join('"%s"' % t for t in target))
     cfg = cfg.replace("PrintReplay = TRUE", "PrintReplay = FALSE")
     for k, v in over.items():
         cfg, n = re.subn(r"^  %s = .*$" % k, "  %s = %s" % (k, v), cfg, flags=re.M)
@@ -75,7 +82,6 @@ def run_one(name, workers=4, timeout=900):
                            cwd=SPEC, stdout=f, stderr=subprocess.STDOUT, timeout=timeout, env=env)
         except subprocess.TimeoutExpired:
             done = False
-    os.remove(cfgp)
     viol = []
     states = 0
     with open(raw, errors="replace") as f:
@@ -88,16 +94,35 @@ def run_one(name, workers=4, timeout=900):
             if m:
                 states = int(m.group(1).replace(",", ""))
     os.remove(raw)
+    if not viol:
+        # BFS did not reach a counterexample inside the time limit: random simulation of the same model
+        raw2 = os.path.join(WORK, name + ".sim.out")
+        with open(raw2, "w") as f:
+            try:
+                subprocess.run(["tlc", "-workers", str(workers), "-simulate", "num=100000000", "-depth", "90", "-metadir",
+                                os.path.join(WORK, "mds_" + name), "-cleanup", "-noGenerateSpecTE", "-config",
+                                os.path.join("MC", "ABL_%s.cfg" % name), os.path.join("MC", "MC_core.tla")],
+                               cwd=SPEC, stdout=f, stderr=subprocess.STDOUT, timeout=420, env=env)
+            except subprocess.TimeoutExpired:
+                pass
+        with open(raw2, errors="replace") as f:
+            for line in f:
+                if line.startswith('"{'):
+                    v = json.loads(json.loads(line))
+                    if v.get("k") == "MCVIOL":
+                        viol.append(v)
+        os.remove(raw2)
+    os.remove(cfgp)
     res = {"ablation": name, "base": base, "overrides": over, "found": len(viol), "states": states,
            "wall_s": round(time.time() - t0, 1), "complete": done}
     if viol:
         viol.sort(key=lambda v: len(v["h"]))
         os.makedirs(OUTD, exist_ok=True)
         for k, v in enumerate(viol[:2]):
-            json.dump({"ablation": name, "properties": props, "spec_predicates": v["bad"], "mc": True, "cfg": cluster,
+            json.dump({"ablation": ablname, "properties": props, "spec_predicates": v["bad"], "mc": True, "cfg": cluster,
                        "profile": "ablation:" + name, "seed": 0, "choices": v["h"], "spec_hash": spec_hash(),
                        "model": base, "overrides": over,
-                       "generated_by": "tools/gen_ablation.py (TLC BFS on RaftRs.tla with Ablate={%s})" % name},
+                       "generated_by": "tools/gen_ablation.py (TLC on RaftRs.tla with Ablate={%s}, target %s)" % (ablname, target)},
                       open(os.path.join(OUTD, "%s_%d.json" % (name, k)), "w"))
         res["predicates"] = viol[0]["bad"]
         res["length"] = len(viol[0]["h"])
